@@ -182,6 +182,7 @@ class Conc:
         return "".join(out)
 
     def node(self, n):
+        prev_shape = getattr(self, "_prev_shape", None)     # (rendering the children resets it)
         k = n["k"]
         i = n["id"]
         nl = self.nl
@@ -260,7 +261,7 @@ class Conc:
             return f'<loop {" ".join(a)}>{self.lead}{kids}</loop>{nl}'
         if k == "reuse":
             # the target may be named as "the previous element" when it is just that
-            by_prev = getattr(self, "_prev_shape", None) == n["href"] and self.rnd.random() < 0.5
+            by_prev = prev_shape == n["href"] and self.rnd.random() < 0.5
             a = [f'id="r{i}"', 'href="^"' if by_prev else f'href="#n{n["href"]}"'] + [f'{x}="{v}"' for x, v in n["loc"]]
             if n["ref"] > 0:
                 a.append(f'xy="#n{n["ref"]}|h 1"')
